@@ -85,6 +85,7 @@ type world struct {
 	mediaType string
 	value     any
 	raw       []byte // reader payloads
+	memKind   int    // memreader: 0 *bytes.Buffer 1 *bytes.Reader 2 *strings.Reader
 	rawStream *kernel.Stream
 	fields    []struct {
 		name   string
@@ -172,6 +173,15 @@ func (w *world) WriteToRequest(req runtime.ClientRequest, _ strfmt.Registry) err
 		_ = req.SetBodyParam(kernel.ReaderOnly{S: w.rawStream})
 	case "readcloser":
 		_ = req.SetBodyParam(io.ReadCloser(w.rawStream))
+	case "memreader":
+		switch w.memKind {
+		case 0:
+			_ = req.SetBodyParam(bytes.NewBuffer(append([]byte(nil), w.raw...)))
+		case 1:
+			_ = req.SetBodyParam(bytes.NewReader(append([]byte(nil), w.raw...)))
+		default:
+			_ = req.SetBodyParam(strings.NewReader(string(w.raw)))
+		}
 	}
 	byField := map[string][]runtime.NamedReadCloser{}
 	var order []string
@@ -214,7 +224,7 @@ type xmlVal struct {
 func genWorld(tape *kernel.Tape, env *kernel.Env, idx int) (*world, bool) {
 	w := &world{env: env, idx: idx}
 	pfx := fmt.Sprintf("c%d-", idx)
-	w.kind = []string{"files", "both", "form-multi", "form-url", "value", "reader", "readcloser", "none"}[tape.Choose(8, "kind")]
+	w.kind = []string{"files", "both", "form-multi", "form-url", "value", "reader", "readcloser", "none", "memreader"}[tape.Choose(9, "kind")]
 	w.method = []string{"POST", "POST", "PUT", "PATCH", "GET", "DELETE"}[tape.Choose(6, "method")]
 	if tape.Bool(5, "preset-content-type") {
 		w.presetCT = []string{"application/x-stale", "text/plain", "application/json"}[tape.Choose(3, "preset")]
@@ -230,6 +240,11 @@ func genWorld(tape *kernel.Tape, env *kernel.Env, idx int) (*world, bool) {
 		w.mediaType = "application/x-www-form-urlencoded"
 	case "reader", "readcloser":
 		w.mediaType = "application/octet-stream"
+	case "memreader":
+		// the caller's payload is one of the standard library's in-memory readers
+		w.mediaType = "application/octet-stream"
+		w.raw = genContent(tape)
+		w.memKind = tape.Choose(3, "in-memory-reader-kind")
 	case "value":
 		w.mediaType = []string{"application/json", "application/xml", "text/plain", "application/octet-stream", "application/x-yaml"}[tape.Choose(5, "producer")]
 		switch w.mediaType {
@@ -483,7 +498,7 @@ func (w *world) checkBody(ex *simhttp.Exchange) {
 			env.Violate("C11/body-differs", "value:"+w.mediaType, "sent %d bytes, the %s producer writes %d bytes for the value (first difference at %d)", len(ex.ReqBody), w.mediaType, want.Len(), firstDiff(want.Bytes(), ex.ReqBody))
 		}
 		w.checkCT(ct)
-	case "reader", "readcloser":
+	case "reader", "readcloser", "memreader":
 		if !bytes.Equal(w.raw, ex.ReqBody) {
 			env.Violate("C11/body-differs", w.kind, "sent %d bytes, the reader payload has %d (first difference at %d)", len(ex.ReqBody), len(w.raw), firstDiff(w.raw, ex.ReqBody))
 		}
